@@ -148,121 +148,195 @@ def _assign_value(fn, target):
     raise TranslatorError(f"{fn.name}: no assignment to {target}")
 
 
-def extract_consts(repo):
-    src = os.path.join(repo, "sketchnu")
-    C = {}
+def _clusters(src):
+    """Independent extraction clusters: (tag, [names], thunk).  A cluster that fails only poisons its own names."""
+    import functools
+    P = functools.lru_cache(None)(lambda f: _parse(os.path.join(src, f)))
+    cl = []
+
+    def add(tag, names, thunk):
+        cl.append((tag, names, thunk))
+
     # ---------------- hashes.py
-    h = _parse(os.path.join(src, "hashes.py"))
-    c = _expect("_fhmix64", _consts(_strip_doc(_find_func(h, "_fhmix64")), (int,)), 3)
-    C["fh_s1"], C["fh_c"], C["fh_s2"] = c
-    fh = _find_func(h, "fasthash64")
-    C["fh_m"] = _fold(_assign_value(fh, "m").args[0]) if isinstance(_assign_value(fh, "m"), ast.Call) else None
-    if C["fh_m"] is None:
-        raise TranslatorError("fasthash64: m = uint64(<literal>) not found")
-    c = _expect("fasthash32", _consts(_strip_doc(_find_func(h, "fasthash32")), (int,)), 1)
-    C["fh32_shift"] = c[0]
-    c = _expect("_fmix32", _consts(_strip_doc(_find_func(h, "_fmix32")), (int,)), 5)
-    C["mm_f1"], C["mm_fc1"], C["mm_f2"], C["mm_fc2"], C["mm_f3"] = c
-    c = _expect("_rotl32", _consts(_strip_doc(_find_func(h, "_rotl32")), (int,)), 1)
-    C["mm_rotw"] = c[0]
-    mm = _find_func(h, "murmur3")
-    for nm in ("c1", "c2", "c3"):
-        v = _assign_value(mm, nm)
+    def fhmix():
+        c = _expect("_fhmix64", _consts(_strip_doc(_find_func(P("hashes.py"), "_fhmix64")), (int,)), 3)
+        return dict(zip(["fh_s1", "fh_c", "fh_s2"], c))
+    add("hashes:_fhmix64", ["fh_s1", "fh_c", "fh_s2"], fhmix)
+
+    def fhm():
+        v = _assign_value(_find_func(P("hashes.py"), "fasthash64"), "m")
         if not (isinstance(v, ast.Call) and _fold(v.args[0]) is not None):
-            raise TranslatorError(f"murmur3: {nm} = uint32(<literal>) not found")
-        C["mm_" + nm] = _fold(v.args[0])
-    loops = [n for n in _strip_doc(mm) if isinstance(n, ast.For)]
-    if len(loops) != 1:
-        raise TranslatorError("murmur3: expected exactly one block loop")
-    c = _expect("murmur3 block loop", _consts(loops[0].body, (int,)), 3)
-    C["mm_r1"], C["mm_r2"], C["mm_mul5"] = c
+            raise TranslatorError("fasthash64: m = uint64(<literal>) not found")
+        return {"fh_m": _fold(v.args[0])}
+    add("hashes:fasthash64.m", ["fh_m"], fhm)
+    add("hashes:fasthash32", ["fh32_shift"],
+        lambda: {"fh32_shift": _expect("fasthash32", _consts(_strip_doc(_find_func(P("hashes.py"), "fasthash32")), (int,)), 1)[0]})
+    add("hashes:_fmix32", ["mm_f1", "mm_fc1", "mm_f2", "mm_fc2", "mm_f3"],
+        lambda: dict(zip(["mm_f1", "mm_fc1", "mm_f2", "mm_fc2", "mm_f3"],
+                         _expect("_fmix32", _consts(_strip_doc(_find_func(P("hashes.py"), "_fmix32")), (int,)), 5))))
+    add("hashes:_rotl32", ["mm_rotw"],
+        lambda: {"mm_rotw": _expect("_rotl32", _consts(_strip_doc(_find_func(P("hashes.py"), "_rotl32")), (int,)), 1)[0]})
+
+    def mmc():
+        mm = _find_func(P("hashes.py"), "murmur3")
+        out = {}
+        for nm in ("c1", "c2", "c3"):
+            v = _assign_value(mm, nm)
+            if not (isinstance(v, ast.Call) and _fold(v.args[0]) is not None):
+                raise TranslatorError(f"murmur3: {nm} = uint32(<literal>) not found")
+            out["mm_" + nm] = _fold(v.args[0])
+        return out
+    add("hashes:murmur3.c", ["mm_c1", "mm_c2", "mm_c3"], mmc)
+
+    def mmloop():
+        mm = _find_func(P("hashes.py"), "murmur3")
+        loops = [n for n in _strip_doc(mm) if isinstance(n, ast.For)]
+        if len(loops) != 1:
+            raise TranslatorError("murmur3: expected exactly one block loop")
+        return dict(zip(["mm_r1", "mm_r2", "mm_mul5"], _expect("murmur3 block loop", _consts(loops[0].body, (int,)), 3)))
+    add("hashes:murmur3.loop", ["mm_r1", "mm_r2", "mm_mul5"], mmloop)
+
     # ---------------- countmin.py
-    cm = _parse(os.path.join(src, "countmin.py"))
-    lin_init = _find_func(cm, "__init__", "CountMinLinear")
-    v = _assign_value(lin_init, "uint_maxval")
-    C["lin_cap"] = _fold(v.args[0]) if isinstance(v, ast.Call) else None
-    c = _expect("_rand", _consts(_strip_doc(_find_func(cm, "_rand")), (int,)), 5)
-    # rand_ptr == uint64(2048); np.random.rand(2048); uint64(1); uint64(1); uint64(1) ...
-    C["rand_batch_cmp"], C["rand_batch_gen"] = c[0], c[1]
+    def cap(cls, name):
+        def f():
+            v = _assign_value(_find_func(P("countmin.py"), "__init__", cls), "uint_maxval")
+            if not (isinstance(v, ast.Call) and _fold(v.args[0]) is not None):
+                raise TranslatorError(f"{cls}.__init__: uint_maxval literal not found")
+            return {name: _fold(v.args[0])}
+        return f
+    add("countmin:CountMinLinear.uint_maxval", ["lin_cap"], cap("CountMinLinear", "lin_cap"))
+
+    def rand():
+        c = _expect("_rand", _consts(_strip_doc(_find_func(P("countmin.py"), "_rand")), (int,)), 5)
+        return {"rand_batch_cmp": c[0], "rand_batch_gen": c[1]}
+    add("countmin:_rand", ["rand_batch_cmp", "rand_batch_gen"], rand)
     for cls, tag in (("CountMinLog16", "log16"), ("CountMinLog8", "log8")):
-        init = _find_func(cm, "__init__", cls)
-        v = _assign_value(init, "uint_maxval")
-        C[tag + "_umax"] = _fold(v.args[0]) if isinstance(v, ast.Call) else None
-        C[tag + "_default_num_reserved"] = _default(init, "num_reserved")
-        C[tag + "_default_max_count"] = _default(init, "max_count")
-        v = _assign_value(init, "rand_nums")
-        if not (isinstance(v, ast.Call) and v.args and _fold(v.args[0]) is not None):
-            raise TranslatorError(f"{cls}.__init__: rand_nums = rng.random(<literal>) not found")
-        C[tag + "_rand_batch_init"] = _fold(v.args[0])
-        # num_reserved >= <umax> check
-        lims = []
-        for n in ast.walk(init):
-            if isinstance(n, ast.Compare) and isinstance(n.left, ast.Name) and n.left.id == "num_reserved":
-                if len(n.ops) == 1 and isinstance(n.ops[0], ast.GtE):
-                    lims.append(_fold(n.comparators[0]))
-        if len(lims) != 1 or lims[0] is None:
-            raise TranslatorError(f"{cls}.__init__: `num_reserved >= <literal>` check not found")
-        C[tag + "_nr_limit"] = lims[0]
-    fb = _find_func(cm, "_find_base")
-    c = _consts(_strip_doc(fb), (int, float))
-    # range(200) ... base < 1.000000001
-    fl = [x for x in c if isinstance(x, float)]
-    it = [x for x in c if isinstance(x, int)]
-    if len(fl) != 1 or len(it) != 1:
-        raise TranslatorError(f"_find_base: expected one float and one int literal, got {c}")
-    C["find_base_min"] = fl[0]
-    C["find_base_iters"] = it[0]
-    C["guard_linear"] = _guard_fields(_find_func(cm, "merge", "CountMinLinear"))
-    C["guard_log16"] = _guard_fields(_find_func(cm, "merge", "CountMinLog16"))
-    C["guard_log8"] = _guard_fields(_find_func(cm, "merge", "CountMinLog8"))
+        add(f"countmin:{cls}.uint_maxval", [tag + "_umax"], cap(cls, tag + "_umax"))
+
+        def defaults(cls=cls, tag=tag):
+            init = _find_func(P("countmin.py"), "__init__", cls)
+            return {tag + "_default_num_reserved": _default(init, "num_reserved"),
+                    tag + "_default_max_count": _default(init, "max_count")}
+        add(f"countmin:{cls}.defaults", [tag + "_default_num_reserved", tag + "_default_max_count"], defaults)
+
+        def batch(cls=cls, tag=tag):
+            v = _assign_value(_find_func(P("countmin.py"), "__init__", cls), "rand_nums")
+            if not (isinstance(v, ast.Call) and v.args and _fold(v.args[0]) is not None):
+                raise TranslatorError(f"{cls}.__init__: rand_nums = rng.random(<literal>) not found")
+            return {tag + "_rand_batch_init": _fold(v.args[0])}
+        add(f"countmin:{cls}.rand_nums", [tag + "_rand_batch_init"], batch)
+
+        def lim(cls=cls, tag=tag):
+            init = _find_func(P("countmin.py"), "__init__", cls)
+            lims = []
+            for n in ast.walk(init):
+                if isinstance(n, ast.Compare) and isinstance(n.left, ast.Name) and n.left.id == "num_reserved":
+                    if len(n.ops) == 1 and isinstance(n.ops[0], ast.GtE):
+                        lims.append(_fold(n.comparators[0]))
+            if len(lims) != 1 or lims[0] is None:
+                raise TranslatorError(f"{cls}.__init__: `num_reserved >= <literal>` check not found")
+            return {tag + "_nr_limit": lims[0]}
+        add(f"countmin:{cls}.num_reserved_limit", [tag + "_nr_limit"], lim)
+
+    def fbase():
+        c = _consts(_strip_doc(_find_func(P("countmin.py"), "_find_base")), (int, float))
+        fl = [x for x in c if isinstance(x, float)]
+        it = [x for x in c if isinstance(x, int)]
+        if len(fl) != 1 or len(it) != 1:
+            raise TranslatorError(f"_find_base: expected one float and one int literal, got {c}")
+        return {"find_base_min": fl[0], "find_base_iters": it[0]}
+    add("countmin:_find_base", ["find_base_min", "find_base_iters"], fbase)
+    for cls, nm in (("CountMinLinear", "guard_linear"), ("CountMinLog16", "guard_log16"), ("CountMinLog8", "guard_log8")):
+        add(f"countmin:{cls}.merge", [nm], lambda cls=cls, nm=nm: {nm: _guard_fields(_find_func(P("countmin.py"), "merge", cls))})
+
     # ---------------- hyperloglog.py
-    hl = _parse(os.path.join(src, "hyperloglog.py"))
-    init = _find_func(hl, "__init__", "HyperLogLog")
-    v = _assign_value(init, "alpha")
-    c = _consts([v], (int, float))
-    fl = [x for x in c if isinstance(x, float)]
-    if len(fl) != 3:
-        raise TranslatorError(f"HyperLogLog.__init__: alpha expression literals {c}")
-    C["hll_alpha_num"], C["hll_alpha_one"], C["hll_alpha_den"] = fl
-    ps = []
-    for n in ast.walk(init):
-        if isinstance(n, ast.Compare) and isinstance(n.left, ast.Attribute) and n.left.attr == "p":
-            ps.append((type(n.ops[0]).__name__, _fold(n.comparators[0].args[0])
-                       if isinstance(n.comparators[0], ast.Call) else _fold(n.comparators[0])))
-    if sorted(k for k, _ in ps) != ["Gt", "Lt"] or any(v is None for _, v in ps):
-        raise TranslatorError(f"HyperLogLog.__init__: p range check not recognised: {ps}")
-    C["hll_p_max"] = dict(ps)["Gt"]
-    C["hll_p_min"] = dict(ps)["Lt"]
-    offs = []
-    for nm in ("threshold", "bias_data", "raw_estimate"):
-        v = _assign_value(init, nm)
-        c = _consts([v], (int,))
-        if len(c) != 1:
-            raise TranslatorError(f"HyperLogLog.__init__: table index of {nm} not recognised: {c}")
-        offs.append(c[0])
-    if len(set(offs)) != 1:
-        raise TranslatorError(f"HyperLogLog.__init__: table rows use different offsets {offs}")
-    C["hll_table_offset"] = offs[0]
-    C["hll_default_p"] = _default(init, "p")
-    C["hll_default_seed"] = _default(init, "seed")
-    q = _find_func(hl, "_query")
-    c = _consts(_strip_doc(q), (int, float))
-    if len(c) != 2:
-        raise TranslatorError(f"_query: literals {c}")
-    C["hll_zero_cmp"], C["hll_raw_mult"] = c
-    C["guard_hll"] = _guard_fields(_find_func(hl, "merge", "HyperLogLog"))
+    def alpha():
+        v = _assign_value(_find_func(P("hyperloglog.py"), "__init__", "HyperLogLog"), "alpha")
+        c = _consts([v], (int, float))
+        fl = [x for x in c if isinstance(x, float)]
+        if len(fl) != 3:
+            raise TranslatorError(f"HyperLogLog.__init__: alpha expression literals {c}")
+        return dict(zip(["hll_alpha_num", "hll_alpha_one", "hll_alpha_den"], fl))
+    add("hll:alpha", ["hll_alpha_num", "hll_alpha_one", "hll_alpha_den"], alpha)
+
+    def prange():
+        init = _find_func(P("hyperloglog.py"), "__init__", "HyperLogLog")
+        ps = []
+        for n in ast.walk(init):
+            if isinstance(n, ast.Compare) and isinstance(n.left, ast.Attribute) and n.left.attr == "p":
+                ps.append((type(n.ops[0]).__name__, _fold(n.comparators[0].args[0])
+                           if isinstance(n.comparators[0], ast.Call) else _fold(n.comparators[0])))
+        if sorted(k for k, _ in ps) != ["Gt", "Lt"] or any(v is None for _, v in ps):
+            raise TranslatorError(f"HyperLogLog.__init__: p range check not recognised: {ps}")
+        return {"hll_p_max": dict(ps)["Gt"], "hll_p_min": dict(ps)["Lt"]}
+    add("hll:p_range", ["hll_p_max", "hll_p_min"], prange)
+
+    def offs():
+        init = _find_func(P("hyperloglog.py"), "__init__", "HyperLogLog")
+        o = []
+        for nm in ("threshold", "bias_data", "raw_estimate"):
+            c = _consts([_assign_value(init, nm)], (int,))
+            if len(c) != 1:
+                raise TranslatorError(f"HyperLogLog.__init__: table index of {nm} not recognised: {c}")
+            o.append(c[0])
+        if len(set(o)) != 1:
+            raise TranslatorError(f"HyperLogLog.__init__: table rows use different offsets {o}")
+        return {"hll_table_offset": o[0]}
+    add("hll:table_offset", ["hll_table_offset"], offs)
+
+    def hdef():
+        init = _find_func(P("hyperloglog.py"), "__init__", "HyperLogLog")
+        return {"hll_default_p": _default(init, "p"), "hll_default_seed": _default(init, "seed")}
+    add("hll:defaults", ["hll_default_p", "hll_default_seed"], hdef)
+
+    def qlit():
+        c = _consts(_strip_doc(_find_func(P("hyperloglog.py"), "_query")), (int, float))
+        if len(c) != 2:
+            raise TranslatorError(f"_query: literals {c}")
+        return {"hll_zero_cmp": c[0], "hll_raw_mult": c[1]}
+    add("hll:_query", ["hll_zero_cmp", "hll_raw_mult"], qlit)
+    add("hll:merge", ["guard_hll"], lambda: {"guard_hll": _guard_fields(_find_func(P("hyperloglog.py"), "merge", "HyperLogLog"))})
+
     # ---------------- heavyhitters.py
-    hh = _parse(os.path.join(src, "heavyhitters.py"))
-    init = _find_func(hh, "__init__", "HeavyHitters")
-    v = _assign_value(init, "uint_maxval")
-    C["hh_cap"] = _fold(v.args[0]) if isinstance(v, ast.Call) else None
-    C["hh_default_depth"] = _default(init, "depth")
-    C["hh_default_max_key_len"] = _default(init, "max_key_len")
-    C["guard_hh"] = _guard_fields(_find_func(hh, "merge", "HeavyHitters"))
-    for k, v in C.items():
-        if v is None:
-            raise TranslatorError(f"constant {k} not found")
-    return C
+    add("hh:uint_maxval", ["hh_cap"], cap_hh(P))
+
+    def hhdef():
+        init = _find_func(P("heavyhitters.py"), "__init__", "HeavyHitters")
+        return {"hh_default_depth": _default(init, "depth"), "hh_default_max_key_len": _default(init, "max_key_len")}
+    add("hh:defaults", ["hh_default_depth", "hh_default_max_key_len"], hhdef)
+    add("hh:merge", ["guard_hh"], lambda: {"guard_hh": _guard_fields(_find_func(P("heavyhitters.py"), "merge", "HeavyHitters"))})
+    return cl
+
+
+def cap_hh(P):
+    def f():
+        v = _assign_value(_find_func(P("heavyhitters.py"), "__init__", "HeavyHitters"), "uint_maxval")
+        if not (isinstance(v, ast.Call) and _fold(v.args[0]) is not None):
+            raise TranslatorError("HeavyHitters.__init__: uint_maxval literal not found")
+        return {"hh_cap": _fold(v.args[0])}
+    return f
+
+
+FLOAT_NAMES = {"find_base_min", "hll_alpha_num", "hll_alpha_one", "hll_alpha_den"}
+
+
+def extract_consts(repo):
+    """Constants, cluster by cluster.  A cluster that cannot be extracted gets SENTINEL values (-1 / -1.0 / an empty
+    guard list): Consts.v still compiles, the obligations that pin those constants fail, and only the properties
+    that depend on them are affected.  Returns (constants, {cluster: error})."""
+    src = os.path.join(repo, "sketchnu")
+    C, errors = {}, {}
+    for tag, names, thunk in _clusters(src):
+        try:
+            got = thunk()
+            if sorted(got) != sorted(names) or any(v is None for v in got.values()):
+                raise TranslatorError(f"cluster returned {sorted(got)} for {sorted(names)}")
+            C.update(got)
+        except Exception as e:
+            errors["consts:" + tag] = f"{type(e).__name__}: {e}"
+            for k in names:
+                C[k] = [] if k.startswith("guard_") else (-1.0 if k in FLOAT_NAMES else -1)
+    return C, errors
 
 
 def _float_lit(x):
@@ -335,13 +409,21 @@ def emit_tables(thr, raw, bias):
 
 def generate(repo, outdir, write=True):
     """Write the generated files into outdir if changed (write=False: only report what would change).
-    Returns (list of changed files, constants)."""
-    C = extract_consts(repo)
+    Returns (list of changed files, constants, {component: translator error})."""
+    C, errors = extract_consts(repo)
     texts = {"Consts.v": emit_consts(C)}
-    thr, raw, bias = load_tables(repo)
-    texts["HllTables.v"] = emit_tables(thr, raw, bias)
+    try:
+        thr, raw, bias = load_tables(repo)
+        texts["HllTables.v"] = emit_tables(thr, raw, bias)
+    except Exception as e:
+        errors["tables:hll_constants"] = f"{type(e).__name__}: {e}"
+        texts["HllTables.v"] = ("(* TRANSLATION FAILED *)\nFrom Coq Require Import ZArith List Floats.PrimFloat.\nImport ListNotations.\n"
+                                "Definition sub_algorithm_threshold : list Z := [].\n"
+                                "Definition raw_estimate : list (list float) := [].\nDefinition bias_data : list (list float) := [].\n")
     import pytrans
-    texts["Kernels.v"] = pytrans.generate_kernels(repo)
+    ktexts, kerr = pytrans.generate_kernels(repo)
+    texts.update(ktexts)
+    errors.update(kerr)
     changed = []
     os.makedirs(outdir, exist_ok=True)
     for name, txt in texts.items():
@@ -355,13 +437,20 @@ def generate(repo, outdir, write=True):
                 with open(p, "w") as f:
                     f.write(txt)
             changed.append(name)
-    return changed, C
+    stale = os.path.join(outdir, "Kernels.v")
+    if write and os.path.exists(stale):
+        for ext in ("", "o", "ok", "os"):
+            try:
+                os.remove(stale + ext if ext else stale)
+            except OSError:
+                pass
+    return changed, C, errors
 
 
 if __name__ == "__main__":
     repo = sys.argv[1] if len(sys.argv) > 1 else "/repo"
     out = sys.argv[2] if len(sys.argv) > 2 else "/verif/coq/generated"
-    ch, C = generate(repo, out)
-    print("changed:", ch)
+    ch, C, errs = generate(repo, out)
+    print("changed:", ch, "errors:", errs)
     for k in sorted(C):
         print(k, "=", C[k])
